@@ -1,18 +1,95 @@
-/* consts/optable.c -- the settings TABLE of src/pdsh/opt.c, read off the source text of the tree under test on
- * every run (property C18).  Nothing here is typed by hand: the probe scans
- *   - the #define lines of GEN_ARGS / DSH_ARGS / PCP_ARGS            -> OT_GEN_ARGS, OT_DSH_ARGS, OT_PCP_ARGS
- *   - opt_env():   every getenv ("NAME") and what is done with it     -> OT_ENVS  (variable, opt_t field, conversion)
- *   - opt_args():  every `case 'x':` of the switch and what it does   -> OT_OPTS  (letter,   opt_t field, conversion)
- * conversion = string_to_int | atoi | copy_username | strdup | flag | none (no opt_t field touched) | other.
- * The Lean side (Props/C18.lean, table theorems) must account for every row: a new option or variable in opt.c
- * changes the generated table and the theorems stop checking until the model covers it.
- * The tree is $VERIF_REPO or /repo (the same tree the probe was compiled against).
+/* consts/optable.c -- the settings TABLE of src/pdsh/opt.c, derived from its BEHAVIOUR on every run (property C18).
+ *
+ * The probe compiles the opt.c of the tree under test into itself (with the real src/common files it needs and
+ * stubs for the module / rcmd / wcoll layer) and EXPERIMENTS with it; nothing is read off the text of opt.c, so a
+ * refactoring of opt.c cannot change the table, and a new option or variable still shows up:
+ *   - the option string:   the string opt_args hands to getopt (getopt is interposed) under the pdsh and the pdcp
+ *                          personality; common prefix -> OT_GEN_ARGS, the rests -> OT_DSH_ARGS, OT_PCP_ARGS
+ *   - OT_ENVS:             getenv is interposed: every NAME opt_env asks for is a candidate; the candidate is set to
+ *                          the sentinel "7" and opt_env called: the opt_t members whose value changed give the rows
+ *                          (variable, member, conversion)
+ *   - OT_OPTS / OT_EARLY:  for every letter X of the option string, opt_args / opt_args_early is called on `-X` or
+ *                          `-X 7`: the members that changed give the rows (letter, member, conversion); a letter that
+ *                          changes nothing gives (letter, "", "none"); one that ends the program right there gives
+ *                          (letter, "", "exit0") (-V -L -T) or (letter, "", "exit1") (-h, and letters of the option
+ *                          string that no `case` handles: the probe has no modules, so no module-provided options)
+ *   conversion = behaviour class of the member's new value:
+ *        int member:    "7x" refused (exit != 0)  -> "string_to_int"  (exact or refused)
+ *                       "7x" accepted as 7        -> "atoi"           (a prefix is enough)
+ *        bool member:   "flag";   char * member whose new text IS the sentinel: "strdup", or "bounded_text" when
+ *                       a text of 69999 characters is refused (exit != 0);   anything else: "other"
+ *   - OT_INT_FIELDS:       the `int` members of opt_t.
+ * Every experiment runs in a forked child (errx / exit end the child, not the probe).
+ * Member NAMES can only come from the declaration of opt_t: opt.h is parsed for (type, name) of each member, the
+ * offsets are computed by the C layout rule from sizeof/_Alignof of the types named, and the result is checked
+ * against sizeof (opt_t); an unknown member type or a size mismatch fails the probe (P-BROKEN).
+ * Rows are printed in sorted order.  The tree is $VERIF_REPO or /repo (the tree the probe is compiled against).
  */
 #define _GNU_SOURCE
-#include <ctype.h>
-#include <stdio.h>
-#include <stdlib.h>
-#include <string.h>
+#define getopt probe_getopt
+#define getenv probe_getenv
+#include "src/common/xmalloc.c"
+#include "src/common/xstring.c"
+#include "src/common/err.c"
+#include "src/common/list.c"
+#define _next_tok split_next_tok
+#define free_f split_free_f
+#include "src/common/split.c"
+#undef _next_tok
+#undef free_f
+#include "src/common/hostlist.c"
+#include "src/pdsh/opt.c"
+#undef getopt
+#undef getenv
+#include <sys/wait.h>
+#include <fcntl.h>
+#include <stddef.h>
+
+extern int getopt(int, char *const *, const char *);
+extern char *getenv(const char *);
+
+/* ---- stubs for the layers opt.c talks to ---- */
+void mod_list_module_info(void) { }
+int mod_process_opt(opt_t *o, int c, char *arg) { return -1; }     /* no module, hence no module-provided option */
+int mod_read_wcoll(opt_t *o) { return 0; }
+int mod_postop(opt_t *o) { return 0; }
+int mod_count(char *type) { return 0; }
+List mod_get_module_names(char *type) { return list_create(NULL); }
+List mod_get_uninitialized_module_names(char *type) { return list_create(NULL); }
+void mod_print_all_options(int column) { }
+int rcmd_register_defaults(char *hosts, char *rcmd_type, char *user) { return 0; }
+int rcmd_register_default_rcmd(char *rcmd_name) { return 0; }
+char *rcmd_get_default_module(void) { return "probe-default"; }
+int rcmd_exit(void) { return 0; }
+hostlist_t read_wcoll(char *f, FILE *fp) { return hostlist_create("probehost"); }
+void testcase(int n) { exit(0); }      /* testcase.c: runs the built-in test, then exit (0) */
+char *pdsh_version = "probe";
+
+/* ---- interposition ---- */
+static char seen_optstring[512];
+static char seen_env[64][128];
+static int n_seen_env, record_env;
+
+int probe_getopt(int argc, char *const *argv, const char *s)
+{
+    if (!seen_optstring[0]) snprintf(seen_optstring, sizeof seen_optstring, "%s", s);
+    return getopt(argc, argv, s);
+}
+
+char *probe_getenv(const char *name)
+{
+    if (record_env && n_seen_env < 64) {
+        int i;
+        for (i = 0; i < n_seen_env; i++) if (!strcmp(seen_env[i], name)) break;
+        if (i == n_seen_env) snprintf(seen_env[n_seen_env++], 128, "%s", name);
+    }
+    return getenv(name);
+}
+
+/* ---- the members of opt_t ---- */
+enum { K_INT, K_BOOL, K_STR, K_PTR, K_RAW };
+static struct member { char name[64]; int kind; size_t off, size; } mem[128];
+static int nmem;
 
 static char *slurp(const char *path)
 {
@@ -30,169 +107,301 @@ static char *slurp(const char *path)
     return b;
 }
 
-/* body of the function whose definition starts with `head` at the beginning of a line: up to "\n}\n" */
-static char *body(const char *src, const char *head)
+static int type_of(const char *type, int ptr, int *kind, size_t *size, size_t *align)
 {
-    const char *p = src, *e;
-    char *b;
-    for (;;) {
-        p = strstr(p, head);
-        if (!p) return NULL;
-        if (p == src || p[-1] == '\n') break;
-        p++;
+    if (ptr) {
+        *kind = !strcmp(type, "char") ? K_STR : K_PTR;
+        *size = sizeof(void *); *align = _Alignof(void *);
+        return 0;
     }
-    e = strstr(p, "\n}\n");
-    if (!e) return NULL;
-    b = malloc(e - p + 1);
-    memcpy(b, p, e - p);
-    b[e - p] = 0;
-    return b;
+#define T(n, k) if (!strcmp(type, #n)) { *kind = k; *size = sizeof(n); *align = _Alignof(n); return 0; }
+    T(int, K_INT) T(bool, K_BOOL) T(uid_t, K_RAW) T(gid_t, K_RAW) T(pid_t, K_RAW) T(long, K_RAW) T(size_t, K_RAW)
+    T(hostlist_t, K_PTR) T(List, K_PTR) T(time_t, K_RAW) T(unsigned, K_RAW) T(char, K_RAW)
+#undef T
+    return -1;
 }
 
-/* the opt_t field a code segment sets: the first `&opt->NAME` or `opt->NAME = ` (an assignment, not `==`);
- * failing that the first `opt->NAME` mentioned */
-static void field_of(const char *seg, char *field, size_t max)
+static int parse_members(const char *repo)
 {
-    const char *p, *best = NULL;
-    size_t n = 0;
-    field[0] = 0;
-    for (p = seg; (p = strstr(p, "opt->")); p += 5) {
-        const char *q = p + 5;
-        while (isalnum((unsigned char) *q) || *q == '_') q++;
-        while (*q == ' ') q++;
-        if ((p > seg && p[-1] == '&') || (q[0] == '=' && q[1] != '=')) { best = p; break; }
+    char path[4096], *h, *t, *e, *p, *q;
+    size_t off = 0, maxal = 1;
+    snprintf(path, sizeof path, "%s/src/pdsh/opt.h", repo);
+    if (!(h = slurp(path)) || !(t = strstr(h, "typedef struct {")) || !(e = strstr(t, "} opt_t;"))) {
+        fprintf(stderr, "opt_t not found\n");
+        return -1;
     }
-    if (!best) best = strstr(seg, "opt->");
-    if (!best) return;
-    best += 5;
-    while ((isalnum((unsigned char) *best) || *best == '_') && n + 1 < max) field[n++] = *best++;
-    field[n] = 0;
-}
-
-static const char *conv_of(const char *seg, const char *field)
-{
-    char assign_true[128], assign_false[128];
-    snprintf(assign_true, sizeof assign_true, "opt->%s = true", field);
-    snprintf(assign_false, sizeof assign_false, "opt->%s = false", field);
-    if (!field[0]) return "none";
-    if (strstr(seg, "string_to_int")) return "string_to_int";
-    if (strstr(seg, "atoi")) return "atoi";
-    if (strstr(seg, "copy_username")) return "copy_username";
-    if (strstr(seg, "Strdup")) return "strdup";
-    if (strstr(seg, assign_true) || strstr(seg, assign_false)) return "flag";
-    return "other";
-}
-
-static void define_of(const char *src, const char *name, int last)
-{
-    char pat[64];
-    const char *p = src, *hit = NULL;
-    snprintf(pat, sizeof pat, "#define %s", name);
-    while ((p = strstr(p, pat))) {
-        const char *q = p + strlen(pat);
-        if (*q == ' ' || *q == '\t') { hit = q; if (!last) break; }
-        p++;
+    *e = 0;
+    t += strlen("typedef struct {");
+    for (p = t; (p = strstr(p, "/*")); ) {                   /* blank the comments */
+        q = strstr(p, "*/");
+        if (!q) break;
+        memset(p, ' ', q + 2 - p);
     }
-    printf("def OT_%s : String := \"", name);
-    if (hit) {
-        const char *q = strchr(hit, '"');
-        if (q) for (q++; *q && *q != '"'; q++) putchar(*q);
+    for (p = strtok(t, ";"); p; p = strtok(NULL, ";")) {      /* one declaration: TYPE [*]NAME [, [*]NAME]... */
+        char type[64];
+        size_t n = 0;
+        while (isspace((unsigned char) *p)) p++;
+        if (!*p) continue;
+        while ((isalnum((unsigned char) *p) || *p == '_') && n + 1 < sizeof type) type[n++] = *p++;
+        type[n] = 0;
+        for (;;) {
+            int ptr = 0, kind;
+            size_t size, align;
+            struct member *m = &mem[nmem];
+            while (isspace((unsigned char) *p) || *p == '*' || *p == ',') { if (*p == '*') ptr = 1; p++; }
+            if (!*p) break;
+            n = 0;
+            while ((isalnum((unsigned char) *p) || *p == '_') && n + 1 < sizeof m->name) m->name[n++] = *p++;
+            m->name[n] = 0;
+            if (!n || type_of(type, ptr, &kind, &size, &align) < 0) {
+                fprintf(stderr, "opt_t: cannot place member `%s' of type `%s'\n", m->name, type);
+                return -1;
+            }
+            off = (off + align - 1) / align * align;
+            m->kind = kind; m->off = off; m->size = size;
+            off += size;
+            if (align > maxal) maxal = align;
+            nmem++;
+        }
     }
-    printf("\"\n");
-}
-
-/* every `case 'x':` of the switch in the function starting with `head` */
-static int scan_switch(const char *src, const char *head, const char *name)
-{
-    char *b = body(src, head);
-    const char *p;
-    int first = 1;
-    if (!b) { fprintf(stderr, "%s not found\n", head); exit(1); }
-    printf("def %s : List (String × String × String) := [", name);
-    for (p = b; (p = strstr(p, "case '")); ) {
-        char letter = p[6];
-        const char *start = p + 8, *next = strstr(start, "case '"), *dflt = strstr(start, "default:");
-        const char *brk = strstr(start, "break;");
-        const char *end = next;
-        char field[128], *seg;
-        if (dflt && (!end || dflt < end)) end = dflt;
-        if (brk && (!end || brk < end)) end = brk;
-        seg = strndup(start, end ? (size_t) (end - start) : strlen(start));
-        field_of(seg, field, sizeof field);
-        printf("%s(\"%c\", \"%s\", \"%s\")", first ? "" : ", ", letter, field, conv_of(seg, field));
-        first = 0;
-        free(seg);
-        p = start;
+    off = (off + maxal - 1) / maxal * maxal;
+    if (off != sizeof(opt_t)) {
+        fprintf(stderr, "opt_t: layout computed from opt.h is %zu bytes, sizeof (opt_t) is %zu\n", off, sizeof(opt_t));
+        return -1;
     }
-    printf("]\n");
     return 0;
+}
+
+static void dump(const opt_t *o, int fd)
+{
+    FILE *f = fdopen(fd, "w");
+    int i;
+    for (i = 0; i < nmem; i++) {
+        const unsigned char *b = (const unsigned char *) o + mem[i].off;
+        size_t j;
+        switch (mem[i].kind) {
+        case K_INT: fprintf(f, "%d\n", *(const int *) b); break;
+        case K_STR: { const char *s = *(char *const *) b; fprintf(f, "%s\n", s ? s : "(null)"); break; }
+        case K_PTR: fprintf(f, "%s\n", *(void *const *) b ? "set" : "null"); break;
+        default: for (j = 0; j < mem[i].size; j++) fprintf(f, "%02x", b[j]); fprintf(f, "\n");
+        }
+    }
+    fprintf(f, "END\n");
+    fclose(f);
+}
+
+/* one whole line of any length, cut to max - 1 characters, without its newline; 0 at end of file */
+static int rdline(FILE *f, char *buf, size_t max)
+{
+    char *l = NULL;
+    size_t cap = 0;
+    ssize_t n = getline(&l, &cap, f);
+    if (n < 0) { free(l); return 0; }
+    if (n > 0 && l[n - 1] == '\n') l[n - 1] = 0;
+    snprintf(buf, max, "%s", l);
+    free(l);
+    return 1;
+}
+
+/* ---- one experiment ---- */
+enum { ST_ENV, ST_EARLY, ST_ARGS };
+struct res { int status, complete; char val[128][160]; };
+
+static void experiment(const char *prog, int stage, const char *var, const char *val, const char *o1, const char *o2,
+                       struct res *r)
+{
+    int pfd[2], st = 0, i;
+    pid_t pid;
+    FILE *f;
+    memset(r, 0, sizeof *r);
+    if (pipe(pfd) < 0) exit(1);
+    fflush(NULL);
+    if ((pid = fork()) == 0) {
+        opt_t o;
+        char *argv[4];
+        int argc = 0, nul = open("/dev/null", O_RDWR);
+        close(pfd[0]);
+        dup2(nul, 0); dup2(nul, 1); dup2(nul, 2);
+        for (i = 0; i < n_seen_env; i++) unsetenv(seen_env[i]);
+        if (var) setenv(var, val, 1);
+        memset(&o, 0, sizeof o);
+        argv[argc++] = (char *) prog;
+        if (o1) argv[argc++] = (char *) o1;
+        if (o2) argv[argc++] = (char *) o2;
+        argv[argc] = NULL;
+        err_init((char *) prog);
+        opt_default(&o, (char *) prog);
+        if (stage == ST_ENV) { record_env = 1; opt_env(&o); record_env = 0; }
+        else if (stage == ST_EARLY) opt_args_early(&o, argc, argv);
+        else opt_args(&o, argc, argv);
+        {   /* what was recorded goes to the parent first */
+            FILE *g = fdopen(dup(pfd[1]), "w");
+            fprintf(g, "%s\n%d\n", seen_optstring, n_seen_env);
+            for (i = 0; i < n_seen_env; i++) fprintf(g, "%s\n", seen_env[i]);
+            fclose(g);
+        }
+        dump(&o, pfd[1]);
+        _exit(0);
+    }
+    close(pfd[1]);
+    f = fdopen(pfd[0], "r");
+    {
+        char line[600];
+        int n = 0;
+        if (rdline(f, line, sizeof line)) {
+            if (line[0] && !seen_optstring[0]) snprintf(seen_optstring, sizeof seen_optstring, "%s", line);
+            if (rdline(f, line, sizeof line)) n = atoi(line);
+            for (i = 0; i < n && rdline(f, line, sizeof line); i++) {
+                int j;
+                for (j = 0; j < n_seen_env; j++) if (!strcmp(seen_env[j], line)) break;
+                if (j == n_seen_env && n_seen_env < 64) snprintf(seen_env[n_seen_env++], 128, "%s", line);
+            }
+            for (i = 0; i < nmem && rdline(f, line, sizeof line); i++)
+                snprintf(r->val[i], sizeof r->val[i], "%s", line);
+            if (i == nmem && rdline(f, line, sizeof line) && !strncmp(line, "END", 3)) r->complete = 1;
+        }
+        while (fread(line, 1, sizeof line, f) > 0) ;      /* drain: the child must not die of SIGPIPE */
+    }
+    fclose(f);
+    waitpid(pid, &st, 0);
+    r->status = WIFEXITED(st) ? WEXITSTATUS(st) : 128;
+}
+
+/* ---- rows ---- */
+static char rows[3][256][256];
+static int nrows[3];
+
+static void add_row(int table, const char *key, const char *field, const char *conv)
+{
+    snprintf(rows[table][nrows[table]++], 256, "(\"%s\", \"%s\", \"%s\")", key, field, conv);
+}
+
+static int cmp_rows(const void *a, const void *b) { return strcmp(a, b); }
+
+static void print_rows(const char *name, int table)
+{
+    int i;
+    qsort(rows[table], nrows[table], 256, cmp_rows);
+    printf("def %s : List (String × String × String) := [", name);
+    for (i = 0; i < nrows[table]; i++) printf("%s%s", i ? ", " : "", rows[table][i]);
+    printf("]\n");
+}
+
+/* rows for one stimulus: compare `r` with the baseline `b`; `again` re-runs the stimulus with the text "7x" */
+static int classify(int table, const char *key, const struct res *b, const struct res *r,
+                    const char *prog, int stage, const char *var, const char *o1, int takes_arg)
+{
+    int i, n = 0;
+    if (!r->complete) return 0;
+    for (i = 0; i < nmem; i++) {
+        const char *conv = "other";
+        if (!strcmp(b->val[i], r->val[i])) continue;
+        if (mem[i].kind == K_BOOL) conv = "flag";
+        else if (mem[i].kind == K_STR && !strcmp(r->val[i], "7")) {
+            /* the text itself is kept; is its length limited ?  (a text far beyond any login-name limit) */
+            static char big[70000];
+            struct res x;
+            conv = "strdup";
+            if (var || takes_arg) {
+                memset(big, 'u', sizeof big - 1);
+                experiment(prog, stage, var, big, o1, var ? NULL : big, &x);
+                if (!x.complete && x.status != 0) conv = "bounded_text";
+            }
+        }
+        else if (mem[i].kind == K_INT && !strcmp(r->val[i], "7") && (var || takes_arg)) {
+            struct res x;
+            experiment(prog, stage, var, "7x", o1, var ? NULL : "7x", &x);
+            if (!x.complete && x.status != 0) conv = "string_to_int";
+            else if (x.complete && !strcmp(x.val[i], "7")) conv = "atoi";
+        }
+        add_row(table, key, mem[i].name, conv);
+        n++;
+    }
+    return n;
+}
+
+static int takes_arg(const char *s, char c)
+{
+    const char *p = strchr(s, c);
+    return p && p[1] == ':';
 }
 
 int main(void)
 {
     const char *repo = getenv("VERIF_REPO");
-    char path[4096];
-    char *src, *b;
-    const char *p;
-    int first;
+    const char *progs[2] = { "pdsh", "pdcp" };
+    char optstr[2][512], done_env[64][128], done_opt[256] = "", done_early[256] = "";
+    struct res base, r;
+    int p, i, ndone_env = 0;
+    size_t lcp;
 
-    snprintf(path, sizeof path, "%s/src/pdsh/opt.c", repo && *repo ? repo : "/repo");
-    if (!(src = slurp(path))) { fprintf(stderr, "cannot read %s\n", path); return 1; }
+    if (parse_members(repo && *repo ? repo : "/repo") < 0) return 1;
 
-    define_of(src, "GEN_ARGS", 0);
-    define_of(src, "DSH_ARGS", 1);      /* the #else branch (no HAVE_MAGIC_RSHELL_CLEANUP) */
-    define_of(src, "PCP_ARGS", 0);
+    for (p = 0; p < 2; p++) {
+        /* the option string of this personality, and the variables opt_env asks for */
+        seen_optstring[0] = 0;
+        experiment(progs[p], ST_ARGS, NULL, NULL, NULL, NULL, &base);
+        if (!base.complete || !seen_optstring[0]) { fprintf(stderr, "%s: opt_args without options did not return\n", progs[p]); return 1; }
+        snprintf(optstr[p], sizeof optstr[p], "%s", seen_optstring);
 
-    /* ---- opt_env ---- */
-    if (!(b = body(src, "void opt_env("))) { fprintf(stderr, "opt_env not found\n"); return 1; }
-    printf("def OT_ENVS : List (String × String × String) := [");
-    first = 1;
-    for (p = b; (p = strstr(p, "getenv")); ) {
-        const char *q = strchr(p, '"'), *e, *next;
-        char var[128], field[128], *seg;
-        size_t n;
-        if (!q) break;
-        e = strchr(q + 1, '"');
-        if (!e) break;
-        n = (size_t) (e - q - 1);
-        if (n >= sizeof var) n = sizeof var - 1;
-        memcpy(var, q + 1, n);
-        var[n] = 0;
-        next = strstr(e, "getenv");
-        seg = strndup(e, next ? (size_t) (next - e) : strlen(e));
-        field_of(seg, field, sizeof field);
-        printf("%s(\"%s\", \"%s\", \"%s\")", first ? "" : ", ", var, field, conv_of(seg, field));
-        first = 0;
-        free(seg);
-        p = e;
+        /* ---- options ---- */
+        for (i = 0; optstr[p][i]; i++) {
+            char c = optstr[p][i], o1[3] = { '-', c, 0 }, key[2] = { c, 0 };
+            int ta = takes_arg(optstr[p], c);
+            if (c == ':') continue;
+            if (!strchr(done_opt, c)) {
+                experiment(progs[p], ST_ARGS, NULL, NULL, o1, ta ? "7" : NULL, &r);
+                if (classify(1, key, &base, &r, progs[p], ST_ARGS, NULL, o1, ta) > 0 || p == 1 || !strchr(optstr[1], c)
+                    || !r.complete) {
+                    /* a letter that does nothing under pdsh but exists under pdcp is tried again there */
+                    size_t n = strlen(done_opt);
+                    int k, had = 0;
+                    for (k = 0; k < nrows[1]; k++) if (rows[1][k][2] == c && rows[1][k][3] == '"') had = 1;
+                    if (!had) add_row(1, key, "", r.complete ? "none" : r.status == 0 ? "exit0" : "exit1");
+                    done_opt[n] = c; done_opt[n + 1] = 0;
+                }
+            }
+        }
+        {   /* early pass: same letters, its own baseline */
+            struct res eb;
+            experiment(progs[p], ST_EARLY, NULL, NULL, NULL, NULL, &eb);
+            for (i = 0; optstr[p][i]; i++) {
+                char c = optstr[p][i], o1[3] = { '-', c, 0 }, key[2] = { c, 0 };
+                int ta = takes_arg(optstr[p], c);
+                if (c == ':' || strchr(done_early, c)) continue;
+                experiment(progs[p], ST_EARLY, NULL, NULL, o1, ta ? "7" : NULL, &r);
+                if (classify(2, key, &eb, &r, progs[p], ST_EARLY, NULL, o1, ta) > 0) {
+                    size_t n = strlen(done_early);
+                    done_early[n] = c; done_early[n + 1] = 0;
+                }
+            }
+        }
+        /* ---- environment ---- */
+        experiment(progs[p], ST_ENV, NULL, NULL, NULL, NULL, &base);      /* records the names asked for */
+        if (!base.complete) { fprintf(stderr, "%s: opt_env did not return\n", progs[p]); return 1; }
+        for (i = 0; i < n_seen_env; i++) {
+            int k;
+            for (k = 0; k < ndone_env; k++) if (!strcmp(done_env[k], seen_env[i])) break;
+            if (k < ndone_env) continue;
+            experiment(progs[p], ST_ENV, seen_env[i], "7", NULL, NULL, &r);
+            if (classify(0, seen_env[i], &base, &r, progs[p], ST_ENV, seen_env[i], NULL, 0) > 0 || !r.complete)
+                snprintf(done_env[ndone_env++], 128, "%s", seen_env[i]);
+            if (!r.complete) add_row(0, seen_env[i], "", r.status == 0 ? "exit0" : "exit1");
+        }
     }
+
+    /* common prefix of the two option strings (never ending between a letter and its colon) */
+    for (lcp = 0; optstr[0][lcp] && optstr[0][lcp] == optstr[1][lcp]; lcp++) ;
+    while (lcp > 0 && (optstr[0][lcp] == ':' || optstr[1][lcp] == ':')) lcp--;
+    printf("def OT_GEN_ARGS : String := \"%.*s\"\n", (int) lcp, optstr[0]);
+    printf("def OT_DSH_ARGS : String := \"%s\"\n", optstr[0] + lcp);
+    printf("def OT_PCP_ARGS : String := \"%s\"\n", optstr[1] + lcp);
+    print_rows("OT_ENVS", 0);
+    print_rows("OT_EARLY", 2);
+    print_rows("OT_OPTS", 1);
+    printf("def OT_INT_FIELDS : List String := [");
+    for (i = 0, p = 0; i < nmem; i++)
+        if (mem[i].kind == K_INT) printf("%s\"%s\"", p++ ? ", " : "", mem[i].name);
     printf("]\n");
-
-    /* the early switch: in opt_args_early, or in _early_scan once the proposed repair of findings/C18.patch is in */
-    scan_switch(src, body(src, "static void _early_scan (") ? "static void _early_scan (" : "void opt_args_early (", "OT_EARLY");
-    scan_switch(src, "void opt_args(", "OT_OPTS");
-
-    /* ---- opt.h: the `int` members of opt_t (the numeric settings) ---- */
-    {
-        char hpath[4096];
-        char *h, *t, *e;
-        snprintf(hpath, sizeof hpath, "%s/src/pdsh/opt.h", repo && *repo ? repo : "/repo");
-        if (!(h = slurp(hpath)) || !(t = strstr(h, "typedef struct {")) || !(e = strstr(t, "} opt_t;"))) {
-            fprintf(stderr, "opt_t not found\n");
-            return 1;
-        }
-        *e = 0;
-        printf("def OT_INT_FIELDS : List String := [");
-        first = 1;
-        for (p = t; (p = strstr(p, "\n    int ")); ) {
-            const char *q = p + 9;
-            printf("%s\"", first ? "" : ", ");
-            while (isalnum((unsigned char) *q) || *q == '_') putchar(*q++);
-            printf("\"");
-            first = 0;
-            p = q;
-        }
-        printf("]\n");
-    }
     return 0;
 }
